@@ -10,6 +10,7 @@
   should reject — is the correspondence run `eval/parse`.
 -/
 import GV.Eval.ParseThm
+import GV.Eval.ParseSound
 import GV.Eval.GrammarTab
 import GV.Eval.LowerThm
 namespace GV.Props.C01p
@@ -37,6 +38,21 @@ theorem C01_left_assoc : genTab.LeftAssoc := by decide
     any shape, depth and bracketing, redundant brackets included. -/
 theorem C01_parse_roundtrip (t : RE) (hc : Canon refTab t = true) : parseTop genTab (render t) = some t := by
   rw [C01_precedence_table]; exact parseTop_render refTab (by decide) t hc
+
+/-- **Converse.**  Whatever the parser reads from a token string is a canonical tree whose tokens
+    are that string: no accepted text is read against the precedence rules. -/
+theorem C01_parse_sound (ts : List Tok) (hw : ToksWF ts) (t : RE) (h : parseTop genTab ts = some t) :
+    render t = ts ∧ Canon refTab t = true := by
+  rw [C01_precedence_table] at h; exact parseTop_sound refTab (by decide) ts hw t h
+
+/-- The accepted token strings are exactly the token strings of canonical trees … -/
+theorem C01_accepts_iff (ts : List Tok) (hw : ToksWF ts) (t : RE) :
+    parseTop genTab ts = some t ↔ (render t = ts ∧ Canon refTab t = true) := by
+  rw [C01_precedence_table]; exact parseTop_iff refTab (by decide) ts hw t
+
+/-- … and no text has two readings. -/
+theorem C01_unique_reading (t u : RE) (ht : Canon refTab t = true) (hu : Canon refTab u = true)
+    (h : render t = render u) : t = u := render_injective refTab (by decide) t u ht hu h
 
 /-- Text to value: the interpreter, run on what the listener builds from what the parser reads,
     computes the reference meaning of the tree. -/
